@@ -230,16 +230,29 @@ func kfRoot() string {
 }
 
 func loadFindings() {
-	b, err := os.ReadFile(kfPath)
-	if err != nil {
-		return
+	var all []Finding
+	paths := []string{kfPath}
+	// while several people work on the harness at once, per-property fragments live in known_findings.d/
+	if ents, err := os.ReadDir(kfRoot() + "/known_findings.d"); err == nil {
+		for _, e := range ents {
+			if strings.HasSuffix(e.Name(), ".json") {
+				paths = append(paths, kfRoot()+"/known_findings.d/"+e.Name())
+			}
+		}
 	}
-	var f kfFile
-	if err := json.Unmarshal(b, &f); err != nil {
-		fmt.Printf("INFRA: cannot parse %s: %v\n", kfPath, err)
-		os.Exit(3)
+	for _, p := range paths {
+		b, err := os.ReadFile(p)
+		if err != nil {
+			continue
+		}
+		var f kfFile
+		if err := json.Unmarshal(b, &f); err != nil {
+			fmt.Printf("INFRA: cannot parse %s: %v\n", p, err)
+			os.Exit(3)
+		}
+		all = append(all, f.Findings...)
 	}
-	for _, k := range f.Findings {
+	for _, k := range all {
 		if k.Property != PropID {
 			continue
 		}
